@@ -20,6 +20,7 @@ PROFILE = {
     "multi_call": (1, 2),
     "attempt_timeout": 0.05,
     "offgrid_delays": 0.15,
+    "handler_time": 0.3,
 }
 
 
